@@ -131,11 +131,12 @@ def findChar (l : Line) (col : Nat) (c : Nat) (fwd : Bool) (till : Bool) (cnt : 
   | none => none
   | some j => some (if till then (if fwd then j - 1 else j + 1) else j)
 
-/-- `^`: first non-blank character (column 0 of a blank line ... of a line of blanks: its last column) -/
+/-- `^`: first non-blank character; on a line of blanks only (or an empty line) the cursor rests on its last
+    column -/
 def firstNonBlank (l : Line) : Nat :=
   match (List.range l.length).find? (fun j => !isBlank (l.getD j 0)) with
   | some j => j
-  | none => 0
+  | none => lastCol l
 
 /-! ### between lines -/
 def clampRow (b : Buf) (r : Int) : Nat := if r < 0 then 0 else min r.toNat (b.length - 1)
